@@ -137,6 +137,58 @@ var floatBoundary = []struct {
 	{0x4415af1d78b58c40, "1e20"}, {0x3f1a36e2eb1c432d, "1e-4"},
 }
 
+// exact powers of two at which conversions change behaviour (float32 / int32 / float64 mantissa / int64 limits), with the
+// nearest floats below and above, both signs; intToFloat(MaxInt64) = 2^63 and intToFloat(MinInt64) = -2^63 are among them
+func init() {
+	have := map[uint64]bool{}
+	for _, b := range floatBoundary {
+		have[b.bits] = true
+	}
+	add := func(v float64, class string) {
+		if bits := math.Float64bits(v); !have[bits] {
+			have[bits] = true
+			floatBoundary = append(floatBoundary, struct {
+				bits  uint64
+				class string
+			}{bits, class})
+		}
+	}
+	for _, p := range []int{24, 31, 32, 53, 62, 63, 64} {
+		for _, sign := range []float64{1, -1} {
+			v := sign * math.Ldexp(1, p)
+			name := fmt.Sprintf("%s2^%d", map[float64]string{1: "", -1: "-"}[sign], p)
+			add(v, name)
+			add(math.Nextafter(v, math.Inf(1)), name+":next-above")
+			add(math.Nextafter(v, math.Inf(-1)), name+":next-below")
+		}
+	}
+	add(float64(math.MaxInt64), "intToFloat(MaxInt64)")
+	add(float64(math.MinInt64), "intToFloat(MinInt64)")
+	add(math.MaxFloat64, "max-float")
+	add(-math.MaxFloat64, "-max-float")
+	add(math.SmallestNonzeroFloat64, "smallest-nonzero")
+	add(-math.SmallestNonzeroFloat64, "-smallest-nonzero")
+	haveI := map[int64]bool{}
+	for _, b := range intBoundary {
+		haveI[b.v] = true
+	}
+	addI := func(v int64, class string) {
+		if !haveI[v] {
+			haveI[v] = true
+			intBoundary = append(intBoundary, struct {
+				v     int64
+				class string
+			}{v, class})
+		}
+	}
+	for _, p := range []uint{24, 31, 32, 53, 62} {
+		for _, d := range []int64{-1, 0, 1} {
+			addI(int64(1)<<p+d, fmt.Sprintf("2^%d%+d", p, d))
+			addI(-(int64(1)<<p)+d, fmt.Sprintf("-2^%d%+d", p, d))
+		}
+	}
+}
+
 func genFloat(r *rng) (float64, string) {
 	switch k := r.intn(10); {
 	case k < 5:
@@ -596,6 +648,44 @@ func lawCheck(fns map[string]schema.CallableFunction, id string, args []any, o c
 			return name, false, "-" + s + " rejected"
 		}
 		return name, math.Float64bits(neg.v.(float64)) == math.Float64bits(o.v.(float64))^(1<<63), ""
+	case "floatToInt":
+		// truncates toward zero, saturates at the int64 limits, is monotonic (checked against the two neighbouring floats)
+		x := args[0].(float64)
+		got, isInt := o.v.(int64)
+		name = "floatToInt truncates toward zero, is monotonic and saturates"
+		if !isInt || math.IsNaN(x) {
+			return "", true, ""
+		}
+		limit := math.Ldexp(1, 63)
+		switch {
+		case x >= limit:
+			if got != math.MaxInt64 {
+				return name, false, fmt.Sprintf("floatToInt(%v) = %d, expected saturation to %d", x, got, int64(math.MaxInt64))
+			}
+		case x <= -limit:
+			if got != math.MinInt64 {
+				return name, false, fmt.Sprintf("floatToInt(%v) = %d, expected saturation to %d", x, got, int64(math.MinInt64))
+			}
+		default:
+			if want := int64(math.Trunc(x)); got != want { // |x| < 2^63: the conversion of the truncated value is exact
+				return name, false, fmt.Sprintf("floatToInt(%v) = %d, truncation toward zero gives %d", x, got, want)
+			}
+		}
+		for _, dir := range []float64{math.Inf(-1), math.Inf(1)} {
+			y := math.Nextafter(x, dir)
+			if y == x {
+				continue
+			}
+			oy := callGuarded(fns["floatToInt"], []any{y})
+			gy, ok := oy.v.(int64)
+			if oy.kind != "ok" || !ok {
+				continue
+			}
+			if (y < x && gy > got) || (y > x && gy < got) {
+				return name, false, fmt.Sprintf("not monotonic: floatToInt(%v) = %d, floatToInt(%v) = %d", y, gy, x, got)
+			}
+		}
+		return name, true, ""
 	case "intToFloat":
 		// the conversion is the correctly rounded one: |float - int| is at most half an ulp (checked with big arithmetic in the model)
 		return "", true, ""
@@ -844,6 +934,20 @@ func cmdBuiltins(args []string) int {
 						"error": fmt.Sprintf("%s: parameter %d has a schema shape the generator does not know (%T)", fnID, j, p)})
 					break
 				}
+				// sweep: every boundary value of a numeric parameter is used at least once per function and run (the random
+				// draw above stays in the stream, so the later cases do not depend on the sweep)
+				switch p.TypeID() {
+				case schema.TypeIDFloat:
+					if i < len(floatBoundary) {
+						b := floatBoundary[(i+7*j)%len(floatBoundary)]
+						a = genArg{math.Float64frombits(b.bits), "float:" + b.class, p}
+					}
+				case schema.TypeIDInt:
+					if i < len(intBoundary) {
+						b := intBoundary[(i+5*j)%len(intBoundary)]
+						a = genArg{b.v, "int:" + b.class, p}
+					}
+				}
 				callArgs[j], classes[j], argTypes[j] = a.v, a.class, a.typ
 			}
 			if !known {
@@ -871,3 +975,275 @@ func minInt(a, b int) int {
 	}
 	return b
 }
+
+// ---- concurrency leg: `vharness builtins-conc` ---------------------------------------------------------------------------------
+//
+// "Deterministic" and "a pure function of its arguments" must also hold when the ONE function table of
+// builtinfunctions.GetFunctions() is used by several goroutines at the same time (independent steps, outputs and foreach
+// items evaluate their expressions on different goroutines).  One case = one function: G goroutines, each with its own
+// fixed in-schema argument list, call the function M times while the others do the same; every result must equal the
+// result of the same call made alone beforehand.  Argument lists are drawn by the generator of the sequential leg; of a
+// few candidates per goroutine the slowest call is kept (longer calls overlap more).  A last group of cases mixes
+// DIFFERENT functions on the goroutines.  Under the race-detector build (`-child <race binary>`: one child process per
+// case) the data race reports of the child are attached in the format of `racesuite` ({"kind":"race",...}).
+
+type concTarget struct {
+	fnID     string
+	args     []any
+	classes  []string
+	expected callOutcome
+}
+
+// concDraw draws an in-schema argument list for fnID whose call is deterministic when made alone; ok=false if none was found.
+func concDraw(r *rng, fns map[string]schema.CallableFunction, fnID string, tmpFile string) (concTarget, bool) {
+	fn := fns[fnID]
+	params := fn.Parameters()
+	best := concTarget{}
+	var bestDur time.Duration = -1
+	for try, kept := 0, 0; try < 24 && kept < 5; try++ {
+		var args []any
+		var classes []string
+		if envDependent[fnID] {
+			args, classes = harmlessArgs(r, fnID, tmpFile)
+		} else {
+			args = make([]any, len(params))
+			classes = make([]string, len(params))
+			known := true
+			for j, p := range params {
+				a, ok := genFor(r, p)
+				if !ok {
+					known = false
+					break
+				}
+				args[j], classes[j] = a.v, a.class
+			}
+			if !known {
+				return concTarget{}, false
+			}
+		}
+		if hazardous(fnID, args) || !inSchema(params, args) {
+			continue
+		}
+		t0 := time.Now()
+		o1 := callGuarded(fn, args)
+		dur := time.Since(t0)
+		if o1.kind == "panic" || !sameOutcome(o1, callGuarded(fn, args)) {
+			continue // panics and sequential nondeterminism are the sequential leg's business
+		}
+		kept++
+		if dur > bestDur {
+			bestDur = dur
+			best = concTarget{fnID: fnID, args: args, classes: classes, expected: o1}
+		}
+	}
+	return best, bestDur >= 0
+}
+
+func concEncArgs(args []any) []any {
+	out := make([]any, len(args))
+	for i, a := range args {
+		out[i] = encB(a)
+	}
+	return out
+}
+
+func concTrim(v any) any {
+	b, _ := json.Marshal(v)
+	if len(b) > 600 {
+		return string(b[:600]) + fmt.Sprintf("...(%d bytes)", len(b))
+	}
+	return v
+}
+
+// runConcCase: the targets' calls, all at the same time, `iters` times each.
+func runConcCase(fns map[string]schema.CallableFunction, id, label string, targets []concTarget, iters int) map[string]any {
+	type miss struct {
+		goroutine, iteration int
+		got                  callOutcome
+	}
+	misses := make([][]miss, len(targets))
+	counts := make([]int, len(targets))
+	gate := make(chan struct{})
+	done := make(chan int, len(targets))
+	for g := range targets {
+		go func(g int) {
+			t := targets[g]
+			fn := fns[t.fnID]
+			<-gate
+			for i := 0; i < iters; i++ {
+				o := callGuarded(fn, t.args)
+				if !sameOutcome(o, t.expected) {
+					counts[g]++
+					if len(misses[g]) < 2 {
+						misses[g] = append(misses[g], miss{g, i, o})
+					}
+				}
+			}
+			done <- g
+		}(g)
+	}
+	t0 := time.Now()
+	close(gate)
+	for range targets {
+		<-done
+	}
+	gs := []any{}
+	total := 0
+	var first any
+	for g, t := range targets {
+		gs = append(gs, map[string]any{"fn": t.fnID, "args": concEncArgs(t.args), "arg_class": t.classes, "alone": concTrim(t.expected.enc()),
+			"mismatches": counts[g]})
+		total += counts[g]
+		if first == nil && len(misses[g]) > 0 {
+			m := misses[g][0]
+			first = map[string]any{"goroutine": g, "iteration": m.iteration, "fn": t.fnID, "args": concEncArgs(t.args),
+				"alone": concTrim(t.expected.enc()), "concurrent": concTrim(m.got.enc())}
+		}
+	}
+	keyArgs := []any{}
+	for _, t := range targets {
+		keyArgs = append(keyArgs, []any{t.fnID, concEncArgs(t.args)})
+	}
+	return map[string]any{"kind": "builtin-conc", "id": id, "fn": label, "goroutines": gs, "iterations": iters, "calls": iters * len(targets),
+		"mismatches": total, "first_mismatch": first, "wall_ms": time.Since(t0).Milliseconds(), "key": keyArgs}
+}
+
+func concChildCase(bin string, c *common, i int, extra []string) []map[string]any {
+	id := fmt.Sprintf("conc-%d-%d", c.seed, i)
+	args := append([]string{"builtins-conc", "-n", fmt.Sprint(i + 1), "-skip", fmt.Sprint(i), "-seed", fmt.Sprint(c.seed), "-tier", c.tier, "-out", "-"}, extra...)
+	cmd := exec.Command(bin, args...)
+	env := []string{}
+	for _, e := range os.Environ() {
+		if !strings.HasPrefix(e, "GORACE=") {
+			env = append(env, e)
+		}
+	}
+	cmd.Env = append(env, "GORACE=halt_on_error=0 history_size=7")
+	var so, se bytes.Buffer
+	cmd.Stdout, cmd.Stderr = &so, &se
+	done := make(chan error, 1)
+	if err := cmd.Start(); err != nil {
+		return []map[string]any{{"kind": "harness-error", "id": id, "error": err.Error()}}
+	}
+	go func() { done <- cmd.Wait() }()
+	var werr error
+	select {
+	case werr = <-done:
+	case <-time.After(5 * time.Minute):
+		_ = cmd.Process.Kill()
+		werr = fmt.Errorf("child timed out")
+		<-done
+	}
+	out := []map[string]any{}
+	var main map[string]any
+	for _, line := range strings.Split(so.String(), "\n") {
+		var m map[string]any
+		if json.Unmarshal([]byte(line), &m) == nil && m["kind"] == "builtin-conc" {
+			main = m
+		}
+	}
+	stderr := se.String()
+	if main == nil {
+		main = map[string]any{"kind": "builtin-conc", "id": id, "crash": rerunCrashSummary(stderr)}
+		if werr != nil {
+			main["child_exit"] = werr.Error()
+		}
+	}
+	main["child"] = bin
+	out = append(out, main)
+	if strings.Contains(stderr, "WARNING: DATA RACE") {
+		reps := parseRaceReports(stderr)
+		if len(reps) > 6 {
+			reps = reps[:6]
+		}
+		for k, rec := range reps {
+			rec["id"] = fmt.Sprintf("%s-report-%d", id, k)
+			rec["key"] = rec["id"]
+			// the concrete input of the report: the calls that were running
+			rec["case"] = map[string]any{"id": main["id"], "fn": main["fn"], "goroutines": main["goroutines"], "iterations": main["iterations"]}
+			rec["replay_harness"] = append([]string{"builtins-conc", "-n", fmt.Sprint(i + 1), "-skip", fmt.Sprint(i), "-seed", fmt.Sprint(c.seed), "-child", "self"}, extra...)
+			out = append(out, rec)
+		}
+	}
+	return out
+}
+
+func cmdBuiltinsConc(args []string) int {
+	var child string
+	var goroutines, iters int
+	c, _ := parseCommon("builtins-conc", args, func(fs *flag.FlagSet) {
+		fs.StringVar(&child, "child", "", "run every case in a child process of this binary (`self` or the -race build) and attach its race reports")
+		fs.IntVar(&goroutines, "g", 8, "goroutines per case")
+		fs.IntVar(&iters, "iters", 0, "calls per goroutine (default 3000 quick, 20000 thorough)")
+	})
+	if iters <= 0 {
+		iters = 3000
+		if c.tier == "thorough" {
+			iters = 20000
+		}
+	}
+	if child == "self" {
+		if exe, err := os.Executable(); err == nil {
+			child = exe
+		}
+	}
+	w := openOut(c.out)
+	defer w.close()
+	_ = os.Setenv("VERIF_C18_SET", "value-of-the-variable")
+	_ = os.Unsetenv("VERIF_C18_UNSET")
+	tmpName := ""
+	if tmp, err := os.CreateTemp("", "verif-c18-*.txt"); err == nil {
+		_, _ = tmp.WriteString("file content\nsecond line é\n")
+		_ = tmp.Close()
+		tmpName = tmp.Name()
+		defer os.Remove(tmpName)
+	}
+	fns := builtinfunctions.GetFunctions()
+	ids := make([]string, 0, len(fns))
+	for id := range fns {
+		ids = append(ids, id)
+	}
+	sort.Strings(ids)
+	// case i: rounds over the functions in sorted order; after every full round one case that mixes functions.  -n counts cases.
+	per := len(ids) + 1
+	root := newRng(c.seed)
+	extra := []string{"-g", fmt.Sprint(goroutines), "-iters", fmt.Sprint(iters)}
+	for i := 0; i < c.n; i++ {
+		r := root.fork()
+		if i < c.skip {
+			continue
+		}
+		w.emit(map[string]any{"kind": "begin", "index": i})
+		if child != "" {
+			for _, l := range concChildCase(child, c, i, extra) {
+				w.emit(l)
+			}
+			continue
+		}
+		id := fmt.Sprintf("conc-%d-%d", c.seed, i)
+		targets := []concTarget{}
+		label := "(mixed functions)"
+		if k := i % per; k < len(ids) {
+			label = ids[k]
+			for g := 0; g < goroutines; g++ {
+				if t, ok := concDraw(r, fns, ids[k], tmpName); ok {
+					targets = append(targets, t)
+				}
+			}
+		} else {
+			for g := 0; g < goroutines; g++ {
+				if t, ok := concDraw(r, fns, ids[r.intn(len(ids))], tmpName); ok {
+					targets = append(targets, t)
+				}
+			}
+		}
+		if len(targets) < 2 {
+			w.emit(map[string]any{"kind": "builtin-conc", "id": id, "fn": label, "skip": "no two in-schema argument lists with a deterministic sequential result"})
+			continue
+		}
+		w.emit(runConcCase(fns, id, label, targets, iters))
+	}
+	return 0
+}
+
+func init() { register("builtins-conc", cmdBuiltinsConc) }
